@@ -606,5 +606,218 @@ pub proof fn lemma_block_bytes_inj(es: Seq<Ent>, iv: int, es2: Seq<Ent>, iv2: in
     lemma_payload_inj(es, es2);
 }
 
+
+// ---------------------------------------------------------------------------
+// range / prefix oracles (C04, C05), written from the statements
+// ---------------------------------------------------------------------------
+pub open spec fn sat_start(b: core::ops::Bound<Seq<u8>>, k: Seq<u8>) -> bool {
+    match b { core::ops::Bound::Unbounded => true, core::ops::Bound::Included(a) => lex_le(a, k), core::ops::Bound::Excluded(a) => lex_lt(a, k) }
+}
+pub open spec fn sat_end(b: core::ops::Bound<Seq<u8>>, k: Seq<u8>) -> bool {
+    match b { core::ops::Bound::Unbounded => true, core::ops::Bound::Included(e) => lex_le(k, e), core::ops::Bound::Excluded(e) => lex_lt(k, e) }
+}
+/// a is the index of the first entry satisfying the start bound (|es| if none)
+pub open spec fn is_lower(es: Seq<Ent>, b: core::ops::Bound<Seq<u8>>, a: int) -> bool {
+    &&& 0 <= a <= es.len()
+    &&& forall|j: int| 0 <= j < a ==> !sat_start(b, #[trigger] es[j].0)
+    &&& (a < es.len() ==> sat_start(b, es[a].0))
+}
+/// u is the index of the last entry satisfying the end bound (-1 if none)
+pub open spec fn is_upper(es: Seq<Ent>, b: core::ops::Bound<Seq<u8>>, u: int) -> bool {
+    &&& -1 <= u < es.len()
+    &&& forall|j: int| u < j < es.len() ==> !sat_end(b, #[trigger] es[j].0)
+    &&& (u >= 0 ==> sat_end(b, es[u].0))
+}
+pub proof fn lemma_lower_included(es: Seq<Ent>, s: Seq<u8>, c: int)
+    requires is_ceil(es, s, c),
+    ensures is_lower(es, core::ops::Bound::Included(s), c),
+{
+    assert forall|j: int| 0 <= j < c implies !sat_start(core::ops::Bound::Included(s), #[trigger] es[j].0) by { lemma_lex_antisym(es[j].0, s); }
+}
+pub proof fn lemma_lower_excluded(es: Seq<Ent>, s: Seq<u8>, c: int)
+    requires sorted_strict(es), is_ceil(es, s, c),
+    ensures
+        c < es.len() && es[c].0 == s ==> is_lower(es, core::ops::Bound::Excluded(s), c + 1),
+        !(c < es.len() && es[c].0 == s) ==> is_lower(es, core::ops::Bound::Excluded(s), c),
+{
+    let b = core::ops::Bound::Excluded(s);
+    if c < es.len() && es[c].0 == s {
+        assert forall|j: int| 0 <= j < c + 1 implies !sat_start(b, #[trigger] es[j].0) by {
+            if j < c { lemma_lex_antisym(es[j].0, s); } else { lemma_lex_irrefl(s); }
+        }
+        if c + 1 < es.len() { assert(lex_lt(es[c].0, es[c + 1].0)); }
+    } else {
+        assert forall|j: int| 0 <= j < c implies !sat_start(b, #[trigger] es[j].0) by { lemma_lex_antisym(es[j].0, s); }
+        if c < es.len() { lemma_lex_eq(s, es[c].0); }
+    }
+}
+pub proof fn lemma_upper_included(es: Seq<Ent>, e: Seq<u8>, f: int)
+    requires is_floor(es, e, f),
+    ensures is_upper(es, core::ops::Bound::Included(e), f),
+{
+    assert forall|j: int| f < j < es.len() implies !sat_end(core::ops::Bound::Included(e), #[trigger] es[j].0) by { lemma_lex_antisym(e, es[j].0); }
+}
+pub proof fn lemma_upper_excluded(es: Seq<Ent>, e: Seq<u8>, f: int)
+    requires sorted_strict(es), is_floor(es, e, f),
+    ensures
+        f >= 0 && es[f].0 == e ==> is_upper(es, core::ops::Bound::Excluded(e), f - 1),
+        !(f >= 0 && es[f].0 == e) ==> is_upper(es, core::ops::Bound::Excluded(e), f),
+{
+    let b = core::ops::Bound::Excluded(e);
+    if f >= 0 && es[f].0 == e {
+        assert forall|j: int| f - 1 < j < es.len() implies !sat_end(b, #[trigger] es[j].0) by {
+            if j > f { lemma_lex_antisym(e, es[j].0); } else { lemma_lex_irrefl(e); }
+        }
+        if f - 1 >= 0 { assert(lex_lt(es[f - 1].0, es[f].0)); }
+    } else {
+        assert forall|j: int| f < j < es.len() implies !sat_end(b, #[trigger] es[j].0) by { lemma_lex_antisym(e, es[j].0); }
+        if f >= 0 { lemma_lex_eq(es[f].0, e); }
+    }
+}
+
+
+// ---- prefix successor (C05) ----
+/// the smallest byte string greater than every string with prefix p (None when p is empty or all 0xFF)
+pub open spec fn adv(p: Seq<u8>) -> Option<Seq<u8>>
+    decreases p.len()
+{
+    if p.len() == 0 { None }
+    else if p.last() < 255 { Some(p.drop_last().push((p.last() + 1) as u8)) }
+    else { adv(p.drop_last()) }
+}
+pub proof fn lemma_lex_common_prefix(a: Seq<u8>, x: Seq<u8>, y: Seq<u8>)
+    ensures lex_cmp(a + x, a + y) == lex_cmp(x, y),
+    decreases a.len()
+{
+    if a.len() == 0 {
+        assert(a + x =~= x); assert(a + y =~= y);
+    } else {
+        assert((a + x).drop_first() =~= a.drop_first() + x);
+        assert((a + y).drop_first() =~= a.drop_first() + y);
+        lemma_lex_common_prefix(a.drop_first(), x, y);
+    }
+}
+pub proof fn lemma_adv_above(p: Seq<u8>, k: Seq<u8>)
+    requires p.is_prefix_of(k), adv(p) is Some,
+    ensures lex_lt(k, adv(p)->0),
+    decreases p.len()
+{
+    let n = p.len() as int;
+    if p.last() < 255 {
+        let a = p.drop_last();
+        let rest = k.subrange(n, k.len() as int);
+        let x = seq![p.last()] + rest;
+        let y = seq![(p.last() + 1) as u8];
+        assert(k =~= a + x);
+        assert(adv(p)->0 =~= a + y);
+        lemma_lex_common_prefix(a, x, y);
+        assert(x[0] < y[0]);
+    } else {
+        assert(p.drop_last().is_prefix_of(k));
+        lemma_adv_above(p.drop_last(), k);
+    }
+}
+/// conversely: a key that is >= p and below adv(p) has prefix p; with adv(p) == None every key >= p has prefix p
+pub proof fn lemma_adv_tight(p: Seq<u8>, k: Seq<u8>)
+    requires lex_le(p, k), adv(p) is Some ==> lex_lt(k, adv(p)->0),
+    ensures p.is_prefix_of(k),
+    decreases p.len()
+{
+    if p.len() == 0 {
+    } else {
+        // compare first bytes
+        if k.len() == 0 { assert(lex_cmp(p, k) == core::cmp::Ordering::Greater); }
+        assert(k.len() > 0);
+        if p[0] != k[0] {
+            // p < k with p[0] < k[0]; then adv(p) starts with byte <= ... derive contradiction
+            assert(p[0] < k[0]);
+            lemma_adv_first_byte(p);
+            if adv(p) is Some {
+                let np = adv(p)->0;
+                // np[0] <= p[0] + 1 <= k[0]; if np[0] < k[0] then np < k contradiction; if equal need np.len()==1
+                assert(np.len() >= 1);
+                if np[0] < k[0] { assert(lex_cmp(k, np) == core::cmp::Ordering::Greater); }
+                else { assert(np[0] == k[0]); assert(np.len() == 1);
+                       let k1 = k.drop_first(); let n1 = np.drop_first();
+                       assert(n1.len() == 0);
+                       assert(lex_cmp(k, np) == lex_cmp(k1, n1));
+                       assert(lex_cmp(k1, n1) != core::cmp::Ordering::Less);
+                }
+            } else {
+                // adv(p) None means p is all 0xFF: p[0] == 255, cannot be < k[0]
+                assert(p[0] == 255);
+            }
+        } else {
+            let p1 = p.drop_first(); let k1 = k.drop_first();
+            assert(lex_le(p1, k1));
+            lemma_adv_drop_first(p);
+            if adv(p1) is Some {
+                // adv(p) == [p0] + adv(p1)
+                let np = adv(p)->0;
+                assert(np =~= seq![p[0]] + adv(p1)->0);
+                assert(np.drop_first() =~= adv(p1)->0);
+                assert(lex_lt(k1, adv(p1)->0));
+            }
+            lemma_adv_tight(p1, k1);
+            assert(p =~= seq![p[0]] + p1);
+            assert(k =~= seq![k[0]] + k1);
+        }
+    }
+}
+pub proof fn lemma_adv_first_byte(p: Seq<u8>)
+    requires p.len() > 0,
+    ensures
+        adv(p) is None ==> p[0] == 255,
+        adv(p) is Some ==> adv(p)->0.len() >= 1 && (adv(p)->0[0] == p[0] || (adv(p)->0[0] == p[0] + 1 && adv(p)->0.len() == 1)),
+    decreases p.len()
+{
+    if p.last() < 255 {
+        if p.len() == 1 { } else { assert(p.drop_last().push((p.last() + 1) as u8)[0] == p[0]); }
+    } else {
+        if p.len() > 1 { lemma_adv_first_byte(p.drop_last()); assert(p.drop_last()[0] == p[0]); }
+    }
+}
+pub proof fn lemma_adv_drop_first(p: Seq<u8>)
+    requires p.len() > 0,
+    ensures
+        adv(p.drop_first()) is Some ==> adv(p) == Some(seq![p[0]] + adv(p.drop_first())->0),
+        adv(p.drop_first()) is None ==> (p[0] < 255 ==> adv(p) == Some(seq![(p[0] + 1) as u8])) && (p[0] == 255 ==> adv(p) is None),
+    decreases p.len()
+{
+    let q = p.drop_first();
+    if p.len() == 1 {
+        assert(q.len() == 0);
+        if p[0] < 255 { assert(p.drop_last().push((p.last() + 1) as u8) =~= seq![(p[0] + 1) as u8]); }
+        else { assert(p.drop_last().len() == 0); }
+    } else {
+        assert(q.last() == p.last());
+        assert(q.drop_last() =~= p.drop_last().drop_first());
+        if p.last() < 255 {
+            assert(p.drop_last().push((p.last() + 1) as u8) =~= seq![p[0]] + q.drop_last().push((q.last() + 1) as u8));
+        } else {
+            lemma_adv_drop_first(p.drop_last());
+            assert(p.drop_last()[0] == p[0]);
+        }
+    }
+}
+
+pub proof fn lemma_prefix_le(p: Seq<u8>, k: Seq<u8>)
+    requires p.is_prefix_of(k),
+    ensures lex_le(p, k),
+    decreases p.len()
+{
+    if p.len() > 0 {
+        assert(p[0] == k[0]);
+        assert(p.drop_first().is_prefix_of(k.drop_first())) by {
+            assert(p.drop_first() =~= k.drop_first().subrange(0, p.len() - 1));
+        }
+        lemma_prefix_le(p.drop_first(), k.drop_first());
+    }
+}
+/// the bound used by the reverse prefix iterator: keys strictly below adv(p), or no bound when adv(p) is None
+pub open spec fn prefix_upper(p: Seq<u8>) -> core::ops::Bound<Seq<u8>> {
+    match adv(p) { Some(np) => core::ops::Bound::Excluded(np), None => core::ops::Bound::Unbounded }
+}
+
 } // mod ghost
 } // verus!
